@@ -5,7 +5,7 @@
    preimage of another committed digest string): [occurs]. *)
 From Coq Require Import List String ZArith NArith Bool.
 Import ListNotations.
-From VF Require Import C18.Model C18.Proofs C18.Corr.
+From VF Require Import C18.Model C18.Proofs C18.Exact C18.Corr.
 Open Scope string_scope.
 Open Scope list_scope.
 
@@ -133,6 +133,45 @@ Proof.
   - exists o5, [("l", VArr [VNum 1; VNum 2]); ("b", VStr "x")], [[SKey "b"]]. eexists. split; [reflexivity|]. split; vm_compute; reflexivity.
 Qed.
 Print Assumptions disclose_exact_refuted.
+
+(* PARTIAL (output exactness).  Guard = the claim set is well formed and outside the recorded finding classes:
+   [clean]: member names distinct, none of _sd / _sd_alg / ..., NO null and NO empty array anywhere (finding
+   null-or-empty-array-claim-not-preserved); [akept5]: every array whose elements the v5 issuer made disclosable
+   keeps an element under the selection (finding array-without-disclosed-element-collapses); the selection names
+   disclosure sites, not decoy salts (finding v5-decoy-digests-emitted-as-disclosures concerns holder.Parse
+   only); top-level names differ from the registered iss / cnf; the hash is one of the three supported.
+   For EVERY such claim tree, option set (v2 and v5: flat, structured, always-include, recursive, non-SD paths,
+   array elements, decoys, cnf) and selection: the issuer succeeds in writing an SD-JWT whose _sd_alg the verifier
+   reads back, the output pass over the chosen disclosures succeeds, and whenever verifier.Parse accepts the
+   presentation its output is the always-visible claims plus the chosen ones with their issued values
+   (equal up to the order of object members: [veq]). *)
+Theorem disclose_exact_partial : forall o claims sel payload ds vo hb out,
+  alg_ok (o_alg o) -> clean (VObj claims) = true ->
+  ~ In "iss" (map fst claims) -> ~ In "cnf" (map fst claims) ->
+  forallb site_path sel = true ->
+  (o_v5 o = true -> akept5 o sel false [] (VObj claims) = true) ->
+  issue o claims = Ok (payload, ds) ->
+  verify vo {| p_sig_ok := true; p_payload := payload; p_discs := choose sel ds; p_hb := hb |} = Ok out ->
+  veq out (reveal o sel claims).
+Proof.
+  intros o claims sel payload ds vo hb out Ha Hc Hi Hn Hs Hk Hiss Hv.
+  destruct (exact_output o claims sel payload ds Ha Hc Hi Hn Hs Hk Hiss) as (Hal & y & Hy & Hveq).
+  apply verify_ok_inv in Hv as (_ & _ & _ & _ & a' & Ha' & Hr). cbn [p_payload p_discs] in *.
+  rewrite Hal in Ha'. inversion Ha'; subst a'. rewrite Hy in Hr. inversion Hr; subst. exact Hveq.
+Qed.
+Print Assumptions disclose_exact_partial.
+
+(* the output pass itself never fails on an issued SD-JWT and a selection of its sites *)
+Theorem disclose_output_pass_partial : forall o claims sel payload ds,
+  alg_ok (o_alg o) -> clean (VObj claims) = true ->
+  ~ In "iss" (map fst claims) -> ~ In "cnf" (map fst claims) ->
+  forallb site_path sel = true ->
+  (o_v5 o = true -> akept5 o sel false [] (VObj claims) = true) ->
+  issue o claims = Ok (payload, ds) ->
+  get_alg payload = Ok (o_alg o) /\
+  exists y, resolve true (map (digest (o_alg o)) (choose sel ds)) payload = Ok y /\ veq y (reveal o sel claims).
+Proof. exact exact_output. Qed.
+Print Assumptions disclose_output_pass_partial.
 
 (* what the issuer emits is accepted by the holder: REFUTED for v5 with decoy digests (the decoy salts are put
    into the disclosure list; known finding), while the same claims without decoys, and v2 with decoys, parse *)
